@@ -100,9 +100,20 @@ func worldPlugins(w *World) {
 		}
 		p.unreachable = un
 	}
+	// keyRewrite: heartbeats and work connections are authenticated per message, and a rewriting plugin edits
+	// their key: 1 = the client's key is valid and a rewrite spoils it, 2 = the client's key is wrong and a rewrite
+	// installs a valid one. What the server acts on must be the content as the last plugin left it.
+	keyRewrite := 0
+	if np > 0 {
+		keyRewrite = w.KnobPick("key_rewrite", 0, 0, 1, 2)
+	}
+	auth := map[string]any{"token": token}
+	if keyRewrite != 0 {
+		auth["additionalScopes"] = []string{"HeartBeats", "NewWorkConns"}
+	}
 	scfg := map[string]any{
 		"bindAddr": "10.0.0.1", "bindPort": 7000,
-		"auth":            map[string]any{"token": token},
+		"auth":            auth,
 		"transport":       map[string]any{"tcpMux": tcpMux, "heartbeatTimeout": -1},
 		"allowPorts":      []map[string]any{{"start": 20000, "end": 20009}},
 		"userConnTimeout": 3,
@@ -164,8 +175,18 @@ func worldPlugins(w *World) {
 					c["remote_port"] = 20001 + p.idx
 				case "Ping":
 					c["timestamp"] = 1000 + p.idx
+					if keyRewrite == 1 {
+						c["privilege_key"] = "spoiled-by-" + p.name
+					} else if keyRewrite == 2 {
+						c["privilege_key"] = authKey(token, int64(1000+p.idx))
+					}
 				case "NewWorkConn":
 					c["timestamp"] = 2000 + p.idx
+					if keyRewrite == 1 {
+						c["privilege_key"] = "spoiled-by-" + p.name
+					} else if keyRewrite == 2 {
+						c["privilege_key"] = authKey(token, int64(2000+p.idx))
+					}
 				case "NewUserConn":
 					c["remote_addr"] = "rewritten-" + p.name
 				}
@@ -233,6 +254,22 @@ func worldPlugins(w *World) {
 		}
 		return e
 	}
+	// keyValid: is the key of a heartbeat / work connection valid once the chain of plugins has run?
+	keyValid := func(e exp, op string) bool {
+		rewritten := false
+		for _, p := range e.called {
+			if p.outcome[op] == poRewrite {
+				rewritten = true
+			}
+		}
+		switch keyRewrite {
+		case 1:
+			return !rewritten
+		case 2:
+			return rewritten
+		}
+		return true
+	}
 	marks := map[string]int{}
 	snap := func() {
 		for _, p := range plugins {
@@ -244,7 +281,14 @@ func worldPlugins(w *World) {
 	// verify calls made since snap() for one operation
 	verify := func(op string, e exp, effect bool, what string) {
 		w.Check("C15." + op)
-		if effect != e.pass {
+		if e.pass && (op == "Ping" || op == "NewWorkConn") && keyRewrite != 0 {
+			// every plugin accepts: what decides is the key as the last rewrite left it
+			w.Check("C15.server-acts-on-last-edit")
+			if kv := keyValid(e, op); effect != kv {
+				viol("thread", "server-ignores-rewrite-"+op, "%s: every plugin accepted; the key of the message as the plugins left it is valid=%v (client sent a %s key, rewriting plugins %s) but the operation took effect=%v",
+					what, kv, map[int]string{1: "valid", 2: "wrong"}[keyRewrite], map[int]string{1: "spoil it", 2: "install a valid one"}[keyRewrite], effect)
+			}
+		} else if effect != e.pass {
 			if effect {
 				why := "?"
 				if e.stopAt != nil {
@@ -311,6 +355,10 @@ func worldPlugins(w *World) {
 	}
 
 	c := env.newClient("pu", 0)
+	pingToken := token
+	if keyRewrite == 2 {
+		pingToken, c.WorkKey = "not-the-token", "not-the-token"
+	}
 	snap()
 	e := expect("Login")
 	resp, err := c.login("")
@@ -365,7 +413,7 @@ func worldPlugins(w *World) {
 	snap()
 	e = expect("Ping")
 	from := len(c.Inbox)
-	c.Ping(true, token)
+	c.Ping(true, pingToken)
 	m, gotPong := c.WaitMsg(10*time.Second, func(m RecvMsg) bool { return m.Seq >= from && m.Type == tPong })
 	pongOK := false
 	if gotPong {
